@@ -3,6 +3,7 @@ package fakeredis
 import (
 	"bytes"
 	"sort"
+	"strconv"
 	"strings"
 )
 
@@ -34,6 +35,11 @@ type entry struct {
 // synchronised; the Server serialises access.
 type keyspace struct {
 	m map[string]*entry
+	// scanPage > 0: SCAN examines that many keys per call (COUNT overrides it) and applies MATCH/TYPE afterwards, so
+	// pages may be empty although the iteration is not over - the documented behaviour of redis. 0: one page.
+	scanPage   int
+	cursors    map[int64]string // cursor -> last key examined
+	nextCursor int64
 }
 
 func newKeyspace() *keyspace { return &keyspace{m: make(map[string]*entry)} }
@@ -238,6 +244,7 @@ func cmdScan(ks *keyspace, a [][]byte, out []byte) []byte {
 	var pattern []byte
 	var typ string
 	hasPattern, hasType := false, false
+	count := ks.scanPage
 	for i := 2; i < len(a); i += 2 {
 		if i+1 >= len(a) {
 			return appendError(out, errSyntax)
@@ -253,11 +260,49 @@ func cmdScan(ks *keyspace, a [][]byte, out []byte) []byte {
 			if n < 1 {
 				return appendError(out, errSyntax)
 			}
+			if ks.scanPage > 0 {
+				count = int(n)
+			}
 		case "TYPE":
 			typ, hasType = strings.ToLower(string(a[i+1])), true
 		default:
 			return appendError(out, errSyntax)
 		}
+	}
+	if ks.scanPage > 0 {
+		// paged iteration: the cursor stands for the last key examined, so keys that exist during the whole
+		// iteration are returned whatever is added or removed meanwhile
+		after, known := "", cursor == 0
+		if cursor != 0 {
+			after, known = ks.cursors[int64(cursor)]
+			delete(ks.cursors, int64(cursor))
+		}
+		var page []string
+		next := "0"
+		if known {
+			all := ks.sortedKeys(func(k string, _ *entry) bool { return cursor == 0 || k > after })
+			if len(all) > count {
+				all = all[:count]
+				if ks.cursors == nil {
+					ks.cursors = map[int64]string{}
+				}
+				ks.nextCursor += 7
+				ks.cursors[ks.nextCursor] = all[len(all)-1]
+				next = strconv.FormatInt(ks.nextCursor, 10)
+			}
+			for _, k := range all {
+				if hasPattern && !matchKey(pattern, k) {
+					continue
+				}
+				if hasType && typeName(ks.m[k]) != typ {
+					continue
+				}
+				page = append(page, k)
+			}
+		}
+		out = appendArrayLen(out, 2)
+		out = appendBulkString(out, next)
+		return appendKeys(out, page)
 	}
 	var keys []string
 	if cursor == 0 {
